@@ -17,6 +17,7 @@ struct WfObjects {
     bool ic_done = false, hs_done = false;
     StatesClassification* S = nullptr;
     Hamiltonian* H = nullptr;
+    HamiltonianPart* HP = nullptr;         // a part used on its own (block 0)
     DensityMatrix* DM = nullptr;
     CreationOperator* CX = nullptr;
     AnnihilationOperator* C = nullptr;
@@ -39,6 +40,7 @@ struct WfObjects {
         SYM = new Symmetrizer(*IC, *HS);
         S = new StatesClassification(*IC, *SYM);
         H = new Hamiltonian(*IC, *HS, *S);
+        // HP (a part used on its own) reads the block size in its constructor: it is constructed by its first prepare() call
         DM = new DensityMatrix(*S, *H, beta);
         CX = new CreationOperator(*IC, *S, *H, j);
         C = new AnnihilationOperator(*IC, *S, *H, i);
@@ -55,7 +57,7 @@ struct WfObjects {
     }
 
     static const std::vector<std::string>& names() {
-        static std::vector<std::string> n = {"IC", "HS", "SYM", "S", "H", "DM", "CX", "C", "QA", "OPS", "GF", "X", "SU", "EA", "V"};
+        static std::vector<std::string> n = {"IC", "HS", "SYM", "S", "H", "HP", "DM", "CX", "C", "QA", "OPS", "GF", "X", "SU", "EA", "V"};
         return n;
     }
 
@@ -66,6 +68,7 @@ struct WfObjects {
         if (o == "SYM") return SYM->getStatus();
         if (o == "S") return S->getStatus();
         if (o == "H") return H->getStatus();
+        if (o == "HP") return HP ? (int)HP->getStatus() : 0;
         if (o == "DM") return DM->getStatus();
         if (o == "CX") return CX->getStatus();
         if (o == "C") return C->getStatus();
@@ -125,6 +128,10 @@ struct WfObjects {
                 for (int k = 0; k < p->Eigenvalues.size(); ++k) add(d, p->Eigenvalues(k));
             }
             if (H->getStatus() == 2) add(d, H->getGroundEnergy());
+        } else if (o == "HP" && HP) {
+            for (int r = 0; r < HP->H.rows(); ++r) for (int c2 = 0; c2 < HP->H.cols(); ++c2) add(d, ComplexType(HP->H(r, c2)));
+            d += "E:";
+            for (int k = 0; k < HP->Eigenvalues.size(); ++k) add(d, HP->Eigenvalues(k));
         } else if (o == "DM") {
             for (auto* p : DM->parts) {
                 if (!p) { d += "null;"; continue; }
@@ -165,6 +172,7 @@ struct WfObjects {
         std::string ex = classify_exception([&] {
             if (op == "prepare") {
                 if (o == "H") H->prepare(world);
+                else if (o == "HP") { if (!HP) HP = new HamiltonianPart(*IC, *HS, *S, BlockNumber(0)); HP->prepare(); }
                 else if (o == "DM") DM->prepare();
                 else if (o == "CX") CX->prepare();
                 else if (o == "C") C->prepare();
@@ -181,6 +189,7 @@ struct WfObjects {
                 else if (o == "SYM") SYM->compute(false);
                 else if (o == "S") S->compute();
                 else if (o == "H") H->compute(world);
+                else if (o == "HP") { if (!HP) throw std::runtime_error("HP not constructed"); HP->compute(); }
                 else if (o == "DM") DM->compute();
                 else if (o == "CX") CX->compute();
                 else if (o == "C") C->compute();
@@ -198,6 +207,7 @@ struct WfObjects {
                 else if (o == "SYM") sink = SYM->getOperations().size();
                 else if (o == "S") sink = (int)S->getBlockNumber(FockState(IC->getIndexSize(), 0));
                 else if (o == "H") sink = H->getEigenValue(0);
+                else if (o == "HP") { if (!HP) throw std::runtime_error("HP not constructed"); sink = HP->getEigenValue(0); }
                 else if (o == "DM") sink = DM->getWeight(0);
                 else if (o == "CX") sink = CX->getBlockMapping().size();
                 else if (o == "C") sink = C->getBlockMapping().size();
@@ -228,7 +238,7 @@ struct WfObjects {
     }
 
     void canonical() {
-        const char* seq[][2] = {{"IC", "compute"}, {"HS", "compute"}, {"SYM", "compute"}, {"S", "compute"}, {"H", "prepare"}, {"H", "compute"}, {"DM", "prepare"}, {"DM", "compute"},
+        const char* seq[][2] = {{"IC", "compute"}, {"HS", "compute"}, {"SYM", "compute"}, {"S", "compute"}, {"H", "prepare"}, {"H", "compute"}, {"HP", "prepare"}, {"HP", "compute"}, {"DM", "prepare"}, {"DM", "compute"},
                                 {"CX", "prepare"}, {"CX", "compute"}, {"C", "prepare"}, {"C", "compute"}, {"QA", "prepare"}, {"QA", "compute"},
                                 {"OPS", "prepare"}, {"OPS", "compute"}, {"GF", "prepare"}, {"GF", "compute"}, {"X", "prepare"}};
         for (auto& s : seq) { Res r = call(s[0], s[1]); if (r.out != "ok") throw std::runtime_error(std::string("canonical order failed at ") + s[0] + "." + s[1] + ": " + r.ex); }
